@@ -17,7 +17,7 @@ ID = 'C12'
 LEVEL = 'exploration'
 DECIDING = ['c12:queries_monitored']
 RULE = ('a case = one generated project whose every Python file writes a sentinel at import time: '
-        'conftest.py, setup.py, sitecustomize.py, usercustomize.py, __main__.py, gi.py (listed in '
+        'conftest.py, setup.py, sitecustomize.py, usercustomize.py, __main__.py, a C extension and a source-less .pyc (in part of the cases), gi.py (listed in '
         'settings.auto_import_modules), an evil.pth, plain modules and packages, and files named '
         'like standard-library modules that neither host nor helper has imported yet; x buffers '
         'importing them in every import form x {complete, infer, goto(follow), get_references, '
@@ -28,7 +28,7 @@ RULE = ('a case = one generated project whose every Python file writes a sentine
         '>= 20 queries monitored and the control arm produced its sentinel; distinct by project '
         'content digest.')
 ASSUMPTIONS = ['audit events import/exec/compile cover execution of Python source in CPython 3.12',
-               'compiled extension modules inside the project are out of scope (none generated)']
+               'a C extension (built with the gcc present) and a source-less .pyc are planted in every 4th quick project and every thorough one']
 SIZES = {'quick': 64, 'thorough': 800}
 TIMEOUT = {'quick': 1200, 'thorough': 4 * 3600}
 
@@ -36,7 +36,8 @@ _G = {'root': None, 'events': [], 'installed': False}
 
 
 def plan(tier, seed):
-    return [{'id': 'c12-%d' % i, 'seed': '%s/C12/%d' % (seed, i)} for i in range(SIZES[tier])]
+    return [{'id': 'c12-%d' % i, 'seed': '%s/C12/%d' % (seed, i),
+             'compiled': tier == 'thorough' or i % 4 == 0} for i in range(SIZES[tier])]
 
 
 def _audit(event, args):
@@ -78,7 +79,21 @@ def _body(sentinel_dir, uid, defs):
             % (sentinel_dir, uid)) + defs
 
 
-def build_project(root, sentinel_dir, rnd, helper_modules):
+C_SOURCE = r'''
+#define PY_SSIZE_T_CLEAN
+#include <Python.h>
+#include <stdio.h>
+static struct PyModuleDef mod = {PyModuleDef_HEAD_INIT, "somod", NULL, -1, NULL};
+PyMODINIT_FUNC PyInit_somod(void) {
+    FILE *f = fopen(SENTINEL, "w"); if (f) { fputs("ran", f); fclose(f); }
+    PyObject *m = PyModule_Create(&mod);
+    if (m) PyModule_AddIntConstant(m, "so_const", 7);
+    return m;
+}
+'''
+
+
+def build_project(root, sentinel_dir, rnd, helper_modules, with_compiled=False):
     os.makedirs(root, exist_ok=True)
     files = {}
     n = [0]
@@ -108,14 +123,39 @@ def build_project(root, sentinel_dir, rnd, helper_modules):
     shadow = rnd.sample(cands, min(len(cands), rnd.randint(8, 30)))
     for m in shadow:
         add(m + '.py', 'SHADOW = %r\ndef shadow_fn(): pass\n' % m)
+    # compiled modules in the project: a C extension and a source-less .pyc, both writing a
+    # sentinel when really imported (the only kind of module jedi ever imports for real)
+    compiled = []
+    if with_compiled:
+        import py_compile
+        import subprocess
+        import sysconfig
+        src = os.path.join(root, '_pyc_src.py')
+        with open(src, 'w') as f:
+            f.write(_body(sentinel_dir, 'PYC_pycmod', 'PYC_CONST = 1\n'))
+        py_compile.compile(src, cfile=os.path.join(root, 'pycmod.pyc'))
+        os.unlink(src)
+        compiled.append('pycmod')
+        csrc = os.path.join(os.path.dirname(root), 'somod.c')
+        with open(csrc, 'w') as f:
+            f.write(C_SOURCE)
+        so = os.path.join(root, 'somod' + sysconfig.get_config_var('EXT_SUFFIX'))
+        r = subprocess.run(['gcc', '-shared', '-fPIC', '-I' + sysconfig.get_paths()['include'],
+                            '-DSENTINEL="%s"' % os.path.join(sentinel_dir, 'SO_somod'), csrc, '-o', so],
+                           capture_output=True)
+        if r.returncode == 0:
+            compiled.append('somod')
+    files['__compiled__'] = ','.join(compiled)
     with open(os.path.join(root, 'evil.pth'), 'w') as f:
         f.write("import os; open(os.path.join(%r, 'PTH'), 'w').write('ran')\n" % sentinel_dir)
+    compiled_names = files.pop('__compiled__').split(',') if files.get('__compiled__') else []
+    files.pop('__compiled__', None)
     for rel, text in files.items():
         p = os.path.join(root, rel)
         os.makedirs(os.path.dirname(p), exist_ok=True)
         with open(p, 'w') as f:
             f.write(text)
-    return files, shadow
+    return files, shadow + compiled_names
 
 
 def snapshot():
@@ -186,12 +226,14 @@ def run(spec):
     from jedi.api.environment import get_cached_default_environment
     env = get_cached_default_environment()
     helper_modules = set(env._get_subprocess()._send(None, verif_probe.snapshot)['modules'])
-    files, shadow = build_project(root, sentinel_dir, rnd, helper_modules)
+    files, shadow = build_project(root, sentinel_dir, rnd, helper_modules,
+                                  with_compiled=spec.get('compiled', False))
     _G['root'] = root
     del _G['events'][:]
     helper_log_pos = [os.path.getsize(_G['helper_log']) if os.path.exists(_G['helper_log']) else 0]
     mods = ['conftest', 'setup', 'sitecustomize', 'usercustomize', 'gi', 'mod', 'pkg', 'pkg.sub', 'plug'] + shadow
     rnd.shuffle(mods)
+    mods = [m for m in ('somod', 'pycmod') if m in shadow] + [m for m in mods if m not in ('somod', 'pycmod')]
     mods = mods[:14]
     configs = [
         ('default', dict()),
@@ -266,6 +308,16 @@ def run(spec):
         if any(x.endswith('gi.py') for x in os.listdir(sentinel_dir)):
             control_ok = True
             rec.ev('c12:control_arm_sentinel_seen')
+        if 'somod' in shadow:
+            s = jedi.Script('import somod\nsomod.', path=os.path.join(root, 'ctl2.py'), project=project)
+            try:
+                s.complete(2, 6)
+            except Exception:
+                pass
+            if 'SO_somod' in os.listdir(sentinel_dir):
+                rec.ev('c12:control_arm_extension_sentinel_seen')
+            else:
+                control_ok = False
         for x in os.listdir(sentinel_dir):
             os.unlink(os.path.join(sentinel_dir, x))
         audit_seen = False
